@@ -525,6 +525,62 @@ func c16Case(r *mon.Run, idx int64) {
 			r.Count("two_phase_dicts", 1)
 		}
 	}
+	// DictFunc whose callback puts empty statements in as values (and one as key): placeholders that are filled
+	// after DictFunc returned; what is null is decided when the Dict is rendered
+	if ok && idx%7 == 3 && len(ps) >= 1 {
+		var holders []*jen.Statement
+		var keyHolder *jen.Statement
+		var d jen.Dict
+		pp, what := mon.Guard(func() {
+			d = jen.DictFunc(func(dd jen.Dict) {
+				for i, p := range ps {
+					var h *jen.Statement
+					switch i % 3 {
+					case 0:
+						h = jen.Add()
+					case 1:
+						h = &jen.Statement{}
+					default:
+						h = jen.Null()
+					}
+					holders = append(holders, h)
+					if i == 0 && p.keyText != "" {
+						keyHolder = jen.Add()
+						dd[keyHolder] = h
+					} else {
+						dd[p.mkKey()] = h
+					}
+				}
+			})
+			f := jen.NewFile("p")
+			f.Var().Id("X").Op("=").Id("M").Values(d)
+			if idx%2 == 0 {
+				renderFile(f) // rendered once while everything is still empty
+			}
+			for i, p := range ps {
+				holders[i].Add(p.mkVal())
+			}
+			if keyHolder != nil {
+				keyHolder.Add(ps[0].mkKey())
+			}
+			src, fail := renderFile(f)
+			g := jen.NewFile("p")
+			g.NoFormat = true
+			g.Var().Id("X").Op("=").Id("M").Values(d)
+			raw, fail2 := renderFile(g)
+			if fail != "" || fail2 != "" {
+				r.Violate("dict-render-failure", c, "DictFunc with placeholders filled afterwards does not render: %s %s\n%s", fail, fail2, desc)
+				return
+			}
+			for _, p := range judgeDict(ps, src, raw) {
+				r.Violate("dict-pairs", c, "DictFunc whose callback inserted empty statements as placeholders, filled after it returned: %s\n%s\noutput:\n%s", p, desc, src)
+			}
+		})
+		if pp {
+			r.Violate("dict-render-failure", c, "DictFunc with placeholders: panic %s\n%s", mon.Trunc(what, 300), desc)
+		}
+		r.Count("dictfunc_placeholders_filled_later", 1)
+	}
 	// DictFunc whose callback adds nothing but keeps the Dict (and the Dict DictFunc returns): pairs added afterwards
 	// through either reference are pairs of the literal
 	if ok && idx%7 == 0 && len(ps) >= 1 {
